@@ -338,6 +338,25 @@ def run_check(pid, tier, seed, replay=None):
         ctx.build_ok = False
         ctx.build_log += '\nHYGIENE: ' + '; '.join(bad[:10])
 
+    # 1a. the translator refused a fragment: the obligations above have failed closed and stay failed.  So that the
+    # correspondence and the search can still look for a concrete failing input, the harness is rebuilt against the
+    # LAST KNOWN model of that fragment (coq/baseline_gen/<Name>.v, a committed snapshot of what the translator
+    # produced for the unchanged tree; tools/snapshot_gen.sh).  Nothing evaluated this way can discharge an obligation.
+    if gen_bad:
+        used = []
+        for name in gen_bad:
+            base = os.path.join(COQ, 'baseline_gen', name + '.v')
+            if os.path.exists(base):
+                with open(os.path.join(COQ, 'theories', 'Gen', name + '.v'), 'w') as f:
+                    f.write('(* FALLBACK: last known model of this fragment; the translator refused the current source: %s *)\n'
+                            % str(mine.get(name)).replace('*)', '* )') + open(base).read())
+                used.append(name)
+        if used:
+            fb_ok, fb_log = build(['-k'] + targets)
+            ctx.notes.append('translator refused %s; harness rebuilt against the last known model of these fragments '
+                             '(build ok=%s) so that the search can run; obligations stay undischarged' % (used, fb_ok))
+            ctx.extra_cov['fallback_model_fragments'] = used
+
     # 1b. thorough tier: independent re-check of the compiled proofs with coqchk
     if tier == 'thorough' and ctx.build_ok:
         mods = ' '.join('PyRTL.' + pf[len('theories/'):-2].replace('/', '.') for pf in props_files)
